@@ -348,7 +348,7 @@ int main(int argc, char **argv) {
                 if (asan && !thorough && axis_id > 0) continue;
                 for (int a = 0; a < 3; ++a) for (int b = 0; b < 3; ++b) { Task t{int(c), 0, {a, b}, axis_id, 0, 0, {}}; tasks.push_back(t); }
             }
-        else if (thorough && !asan) for (int a = 0; a < 3; ++a) for (int b = 0; b < 3; ++b) for (int d = 0; d < 3; ++d) for (int e = 0; e < 3; ++e) for (int f = 0; f < 3; ++f) { Task t{int(c), 0, {a, b, d, e, f}, 0, 0, 0, {}}; tasks.push_back(t); }
+        else if (thorough && !asan) for (int a = 0; a < 3; ++a) for (int b = 0; b < 3; ++b) { Task t{int(c), 0, {1, 1, 1, 1, 1, 1, 1, 1, a, b}, 0, 0, 0, {}}; tasks.push_back(t); }   // 4D: 16 cells, the first 8 fixed to one copy, {0,1,65}^8 on the rest
         // (b) full grids, every box
         std::vector<long> grids;
         if (D == 2) { grids = {16}; if (c <= 1 || thorough) grids.push_back(32); }
